@@ -617,6 +617,72 @@ func (pr *Prover) keyRaw(v ssa.Value, ver func(ssa.Instruction) string) string {
 		if bi, ok := x.Call.Value.(*ssa.Builtin); ok && bi.Name() == "ssa:wrapnilchk" {
 			return pr.keyRaw(x.Call.Args[0], ver)
 		}
+		// a component accessor — func (v T) key() E { return v[0] } / { return v.f } on a by-value array or struct —
+		// applied to one of this function's own by-value parameters: the component itself
+		if sc := x.Call.StaticCallee(); sc != nil && len(sc.Blocks) == 1 && len(sc.Params) >= 1 {
+			if ret, ok := terminator(sc.Blocks[0]).(*ssa.Return); ok && len(ret.Results) == 1 {
+				comp := ""
+				var of *ssa.Parameter
+				switch r := ret.Results[0].(type) {
+				case *ssa.Index:
+					if k, isC := constInt(r.Index); isC {
+						if prm, isP := r.X.(*ssa.Parameter); isP {
+							comp, of = fmt.Sprintf("[%d]", k), prm
+						}
+					}
+				case *ssa.Field:
+					if prm, isP := r.X.(*ssa.Parameter); isP {
+						comp, of = fmt.Sprintf(".%d", r.Field), prm
+					}
+				case *ssa.UnOp:
+					if r.Op == token.MUL {
+						switch a := r.X.(type) {
+						case *ssa.IndexAddr:
+							if al, ok := a.X.(*ssa.Alloc); ok {
+								if k, isC := constInt(a.Index); isC {
+									if prm := paramSpill(al); prm != nil {
+										comp, of = fmt.Sprintf("[%d]", k), prm
+									}
+								}
+							}
+						case *ssa.FieldAddr:
+							if al, ok := a.X.(*ssa.Alloc); ok {
+								if prm := paramSpill(al); prm != nil {
+									comp, of = fmt.Sprintf(".%d", a.Field), prm
+								}
+							}
+						}
+					}
+				}
+				if of != nil {
+					pure := true
+					for _, ins := range sc.Blocks[0].Instrs {
+						switch ins.(type) {
+						case *ssa.Call, *ssa.MapUpdate, *ssa.Send, *ssa.Go, *ssa.Defer:
+							pure = false
+						case *ssa.Store:
+							if st := ins.(*ssa.Store); !isSpillStore(st) {
+								pure = false
+							}
+						}
+					}
+					for i, q := range sc.Params {
+						if q == of && pure && i < len(x.Call.Args) {
+							if ap, isP := x.Call.Args[i].(*ssa.Parameter); isP {
+								return "p:" + ap.Name() + comp
+							}
+							if ld, isL := x.Call.Args[i].(*ssa.UnOp); isL && ld.Op == token.MUL {
+								if al, ok := ld.X.(*ssa.Alloc); ok {
+									if ap := paramSpill(al); ap != nil {
+										return "p:" + ap.Name() + comp
+									}
+								}
+							}
+						}
+					}
+				}
+			}
+		}
 	case *ssa.FieldAddr, *ssa.IndexAddr:
 		return pr.addrKeyRaw(v, ver)
 	case *ssa.Convert:
@@ -629,6 +695,16 @@ func (pr *Prover) keyRaw(v ssa.Value, ver func(ssa.Instruction) string) string {
 		return n
 	}
 	return fmt.Sprintf("%p", v)
+}
+
+// isSpillStore: the store that puts a by-value parameter into its private local home.
+func isSpillStore(st *ssa.Store) bool {
+	al, ok := st.Addr.(*ssa.Alloc)
+	if !ok {
+		return false
+	}
+	_, isP := st.Val.(*ssa.Parameter)
+	return isP && paramSpill(al) != nil
 }
 
 // convPreserves: the conversion cannot change the numeric value.
@@ -1366,6 +1442,21 @@ func (pr *Prover) NonNil(v ssa.Value, at *ssa.BasicBlock, depth int) bool {
 			if gl, ok := x.X.(*ssa.Global); ok && pr.p.nonNilGlobalValue(gl) {
 				return true // assigned once, in init, from fmt.Errorf / errors.New
 			}
+			if fa, ok := x.X.(*ssa.FieldAddr); ok {
+				// a function (or pointer) field of an element of a package-level table that init fills with non-nil
+				// constants in every element and nothing modifies
+				if gs := pr.tableGlobalsOf(fa); len(gs) > 0 {
+					all := true
+					for _, g := range gs {
+						if !pr.p.constStructTableNonNil(g, fa.Field) {
+							all = false
+						}
+					}
+					if all {
+						return true
+					}
+				}
+			}
 			if fa, ok := x.X.(*ssa.FieldAddr); ok && len(pr.fieldNN) > 0 {
 				if _, isRecv := recvBase(pr.p, pr.fn, fa.X); isRecv && pr.fieldNN[fieldNeedKey(fa)] {
 					return true
@@ -2015,28 +2106,69 @@ func (p *Prog) lenPrefixLemma(D *ssa.Function) (int64, bool) {
 			}
 		}
 	}
-	for _, b := range D.Blocks {
-		ret, ok := terminator(b).(*ssa.Return)
-		if !ok || !isNilConst(ret.Results[0]) || pr.Infeasible(b) {
-			continue
+	// path-wise (the decoder is loop-free): on every feasible path to a nil return, the last store through the
+	// receiver on that path is make(T, L) with len(data) - L - K >= 0, or there is none and len(data) - K >= 0 —
+	// under the branch conditions collected along the path (a `switch` that joins before a single `return nil`
+	// is handled like early returns)
+	if len(AllLoops(D)) > 0 {
+		return 0, false
+	}
+	okAll, npaths := true, 0
+	var walk func(b *ssa.BasicBlock, facts []Lin, truth map[string]bool, last *ssa.Store)
+	walk = func(b *ssa.BasicBlock, facts []Lin, truth map[string]bool, last *ssa.Store) {
+		if !okAll || npaths > 512 {
+			return
 		}
-		var last *ssa.Store
-		for _, st := range stores {
-			if st.Block().Dominates(b) {
-				if last == nil || last.Block().Dominates(st.Block()) {
-					last = st
+		for _, ins := range b.Instrs {
+			if st, ok := ins.(*ssa.Store); ok && st.Addr == recv {
+				last = st
+			}
+		}
+		switch t := terminator(b).(type) {
+		case *ssa.Return:
+			npaths++
+			if !isNilConst(t.Results[0]) {
+				return
+			}
+			if last != nil {
+				if !pr.Prove(b, dlen.sub(pr.lenOf(last.Val)).addConst(-K), facts...) {
+					okAll = false
 				}
-			} else if blocksReachableFrom(st.Block())[b] {
-				return 0, false // a store reaches this return on some paths only
+			} else if !pr.Prove(b, dlen.addConst(-K), facts...) {
+				okAll = false
 			}
-		}
-		if last != nil {
-			if !pr.Prove(b, dlen.sub(pr.lenOf(last.Val)).addConst(-K)) {
-				return 0, false
+		case *ssa.If:
+			k := pr.key(t.Cond)
+			for side := 0; side < 2; side++ {
+				tv := side == 0
+				if prev, seen := truth[k]; seen && prev != tv {
+					continue
+				}
+				cf := pr.condFacts(t.Cond, tv)
+				contradicts := false
+				for _, g := range cf {
+					if pr.Prove(b, g.scale(-1).addConst(-1), facts...) {
+						contradicts = true
+					}
+				}
+				if contradicts {
+					continue
+				}
+				nt := map[string]bool{}
+				for kk, vv := range truth {
+					nt[kk] = vv
+				}
+				nt[k] = tv
+				walk(b.Succs[side], append(append([]Lin(nil), facts...), cf...), nt, last)
 			}
-		} else if !pr.Prove(b, dlen.addConst(-K)) {
-			return 0, false
+		case *ssa.Jump:
+			walk(b.Succs[0], facts, truth, last)
 		}
+	}
+	walk(D.Blocks[0], nil, map[string]bool{}, nil)
+	_ = stores
+	if !okAll || npaths > 512 {
+		return 0, false
 	}
 	p.cache[key] = K
 	return K, true
